@@ -13,7 +13,7 @@ LEVEL = "exploration"
 WORKERS = {"quick": 8, "thorough": 16}
 BUDGET = {"quick": 150, "thorough": 420}
 MIN_NONTRIVIAL = {"quick": 3000, "thorough": 60000}
-REQUIRED_HOOKS = ["evaluate:I", "evaluate:C", "law", "accessor", "duration-text"]
+REQUIRED_HOOKS = ["evaluate:I", "evaluate:C", "law", "accessor", "edge-accessor", "duration-text"]
 RULE = (
     "Timestamps at microsecond resolution in years 0001-9999 (biased to year/month/leap-day/DST/range boundaries) and durations within +-315,576,000,000 s "
     "are bound as variables; the laws (t+d)-d == t, (t+d)-t == d, t1-t2 == elapsed, d+t, t-d, d1+-d2 are evaluated under both runners and compared with integer "
@@ -261,6 +261,41 @@ def accessor_cases(ck, rnd, n):
             ck.run(name, lit, {}, k, cached=False, zone_kind=zk + "-literal")
 
 
+def edge_accessor_cases(ck, rnd, n):
+    """Instants in range whose civil date in the requested zone is year 0 or year 10000.  The statement cannot be met there by a
+    value of the supported range, so an evaluation error is accepted -- and so is the arithmetically right field (year 0 / 10000);
+    anything else (e.g. a field of some other instant) is a violation.  Each instant is queried several times in a row, after an
+    unrelated successful query."""
+    acc = ck.acc
+    for _ in range(n):
+        low = rnd.random() < 0.5
+        off = -rnd.choice([1, 30, 60, 300, 570, 840]) if low else rnd.choice([1, 30, 60, 330, 765, 840])
+        span = abs(off) * 60 * 10**6
+        us = (MV.TS_MIN_US + rnd.randrange(span)) if low else (MV.TS_MAX_US - rnd.randrange(span))
+        z = f"{'+' if off >= 0 else '-'}{abs(off) // 60:02d}:{abs(off) % 60:02d}"
+        decoy = {"t": ("ts", draw_ts(rnd)), "z": ("string", rnd.choice(["UTC", z, "+01:00"]))}
+        env = {"t": ("ts", us), "z": ("string", z)}
+        names = [rnd.choice(lang.ACCESSORS) for _ in range(3)]
+        for r in "IC":
+            core.eval_cached(r, "t." + rnd.choice(lang.ACCESSORS) + "(z)", MV.cel_env(decoy))
+            for name in names:
+                src = f"t.{name}(z)"
+                out = core.eval_cached(r, src, MV.cel_env(env))
+                acc.hook("evaluate:" + r)
+                acc.hook("edge-accessor")
+                acc.evaluations += 1
+                want = civil.fields(us, off * 60)[name]
+                ok = out[0] == "E" or (out[0] == "V" and out[1][0] in ("IntType", "int") and int(out[1][1]) == want)
+                acc.cell("edge-accessor", r, name, "low" if low else "high", out[0], "ok" if ok else "differ")
+                acc.nt(["edge", name, us, z])
+                if not ok:
+                    acc.violation(
+                        f"{r} {name} zone=fixed at=local-year-out-of-range obs={diag.oclass(out).split('@')[0]} exp=E-or-the-civil-field",
+                        f"{'interpreted' if r == 'I' else 'compiled'}: {src} with t={MV.ts_text(us)} z={z!r} (local civil year {civil.fields(us, off * 60)['getFullYear']}) gave {core.jkey(out)[:80]}; an evaluation error or {want} would be right",
+                        {"label": name, "src": src, "env": MV.enc_env(env), "runner": r, "tol": 0},
+                    )
+
+
 def law_cases(ck, rnd, n):
     acc = ck.acc
     for j in range(n):
@@ -364,6 +399,7 @@ def run(ctx):
     core.celpy()
     ck = Checker(acc)
     boundary_sweep(ck, ctx)
+    edge_accessor_cases(ck, rnd, ctx.scale(2400, 48000))
     accessor_cases(ck, rnd, ctx.scale(48000, 960000))
     law_cases(ck, rnd, ctx.scale(36000, 720000))
     duration_cases(ck, rnd, ctx.scale(18000, 360000))
